@@ -21,8 +21,8 @@ STUB = ['transport/reactor (txsim.core)', 'Tor: control server with configuratio
 
 PROBES = {
     'C18': ['socksport-default', 'socksport-entries-1', 'socksport-entries-many', 'entry-with-options',
-            'entry-host-port', 'entry-unix', 'requested-none', 'requested-present', 'requested-absent', 'port-added',
-            'existing-port-used', 'api-helper', 'api-config-create', 'api-config-sync', 'fallback-first-ok', 'fallback-second-ok',
+            'entry-host-port', 'entry-unix', 'requested-none', 'requested-present', 'requested-present-whole-line', 'requested-absent', 'port-added',
+            'existing-port-used', 'api-helper', 'api-config-create', 'api-config-sync', 'api-tor-stream-via', 'concurrent-first-use', 'fallback-first-ok', 'fallback-second-ok',
             'fallback-all-refused', 'fallback-socks-failure', 'fallback-timeout', 'segmented-delivery'],
 }
 
@@ -119,8 +119,10 @@ class C18Run(object):
         effective = list(entries) if entries is not None else [self.default_port]
         firsts = [e.split()[0] for e in effective]
         # what is asked for
-        api = ['helper', 'config-create', 'config-sync'][ch.weighted([5, 3, 2], 'api')]
+        api = ['helper', 'config-create', 'config-sync', 'tor-stream-via'][ch.weighted([5, 3, 2, 3], 'api')]
         sim.probe('api-' + api)
+        if api == 'tor-stream-via':
+            return self.part_a_tor(effective, firsts)
         k = ch.weighted([3, 3, 3], 'req')
         if k == 0:
             requested = None
@@ -128,6 +130,11 @@ class C18Run(object):
         elif k == 1:
             requested = ch.pick(firsts, 'reqpresent')
             sim.probe('requested-present')
+            full = [e for e in effective if ' ' in e]
+            if full and api != 'config-sync' and ch.chance(1, 2, 'reqfull'):
+                # the whole configured line, option words included ("a valid configuration line for SocksPort")
+                requested = ch.pick(full, 'reqfullv')
+                sim.probe('requested-present-whole-line')
         else:
             requested = str(ch.pick([9999, 29050, 9051], 'reqabsent'))
             if any(requested in e for e in effective):
@@ -163,6 +170,73 @@ class C18Run(object):
         sim.drain(max_steps=10000)
         self.check_a(api, effective, firsts)
 
+    def part_a_tor(self, effective, firsts):
+        """Tor.stream_via() without a SOCKS endpoint: one to three clients, the later ones possibly before Tor has
+        answered the first one's GETCONF; every one of them must go through a listener Tor already has"""
+        from txtorcon.torcontrolprotocol import TorControlProtocol
+        from txtorcon.controller import Tor
+        sim, ch, tor = self.sim, self.ch, self.tor
+        sim.log('socksport', repr(self.entries), self.default_port, 'tor-stream-via')
+        for f in firsts:
+            a = self.entry_addr(f)
+            if a[0] == 'unix':
+                sim.net.listen('unix', a[1], lambda dest: MiniSocks(self, 'ok'))
+            else:
+                sim.net.listen('tcp', a[2], lambda dest: MiniSocks(self, 'ok'))
+        self.proto = TorControlProtocol()
+        self.conn = sim.net.attach(self.proto, tor)
+        self.conn.seg_mode = ch.pick(['mixed', 'whole', 'whole', 'bytewise'], 'segmode')
+        sim.add_source(tor.actions)
+        n_clients = 1 + ch.draw(3, 'nclients')
+        self.clients = []
+        state = {'tor': None, 'left': n_clients}
+
+        def one():
+            i = len(self.clients)
+            state['left'] -= 1
+            rec = dict(i=i, result=[], getconf_answered=sum(1 for v, r in tor.cmdlog if v == 'GETCONF'))
+            self.clients.append(rec)
+            if i and not any(c['result'] for c in self.clients[:i]) and tor.answered <= state['answered0']:
+                sim.probe('concurrent-first-use')
+            sim.log('socksport', 'stream_via', i)
+            ep = state['tor'].stream_via('host%d.example' % i, 80)
+            d = ep.connect(Factory.forProtocol(Protocol))
+            d.addCallbacks(lambda p: rec['result'].append(('ok', p)), lambda f: rec['result'].append(('err', f)))
+
+        def start(_):
+            state['tor'] = Tor(sim.reactor, self.proto)
+            state['answered0'] = tor.answered
+            one()
+        self.proto.post_bootstrap.addCallback(start)
+        sim.add_source(lambda: [(4, 'next-client', one)] if state['tor'] is not None and state['left'] > 0 else [])
+        n = 0
+        while n < 3000 and sim.step():
+            n += 1
+        sim.drain(max_steps=10000)
+        socks_setconfs = [items for items in self.setconfs if any(k.lower() == 'socksport' for k, v in items)]
+        if socks_setconfs:
+            sim.fail('C18.config-changed-although-port-configured', 'Tor already has %r but %d stream_via() clients caused SETCONF %r' % (
+                effective, len(self.clients), socks_setconfs))
+        allowed = [self.entry_addr(f) for f in firsts]
+        targets = []
+        for kind, dest in sim.reactor.connect_log:
+            targets.append(('unix', dest) if kind == 'unix' else ('tcp', dest[0], dest[1]))
+        for t in targets:
+            if t not in allowed:
+                sim.fail('C18.wrong-endpoint', 'a client connected to %r, Tor has %r' % (t, allowed))
+        for rec in self.clients:
+            if len(rec['result']) != 1:
+                sim.fail('C18.result-count', 'connect() of client %d fired %d times' % (rec['i'], len(rec['result'])))
+            kind, val = rec['result'][0]
+            if kind != 'ok':
+                sim.fail('C18.client-failed-although-port-configured',
+                         'client %d of %d (started while %d others were unfinished) failed: %s: %s; Tor has %r and its SOCKS listener accepts' % (
+                             rec['i'], len(self.clients), sum(1 for c in self.clients[:rec['i']] if True), val.type.__name__,
+                             val.getErrorMessage()[:140], effective))
+        if len(targets) != len(self.clients):
+            sim.fail('C18.client-connection-count', '%d clients made %d SOCKS connections' % (len(self.clients), len(targets)))
+        sim.probe('existing-port-used')
+
     def describe_ep(self, ep):
         if isinstance(ep, TCP4ClientEndpoint):
             return ('tcp', ep._host, ep._port)
@@ -186,7 +260,7 @@ class C18Run(object):
         kind, val = self.result[0]
         requested = self.requested
         socks_setconfs = [items for items in self.setconfs if any(k.lower() == 'socksport' for k, v in items)]
-        present = requested is None or requested in firsts
+        present = requested is None or requested in firsts or requested in effective
         if api == 'config-sync':
             if socks_setconfs:
                 sim.fail('C18.sync-lookup-changed-config', 'TorConfig.socks_endpoint() caused SETCONF %r' % (socks_setconfs,))
@@ -210,7 +284,7 @@ class C18Run(object):
             if socks_setconfs:
                 sim.fail('C18.config-changed-although-port-configured',
                          'Tor already has %r (requested %r) but received SETCONF %r' % (effective, requested, socks_setconfs))
-            allowed = [self.entry_addr(requested)] if requested is not None else [self.entry_addr(f) for f in firsts]
+            allowed = [self.entry_addr(requested.split()[0])] if requested is not None else [self.entry_addr(f) for f in firsts]
             if api == 'config-create' and requested is None:
                 allowed = [self.entry_addr(firsts[0])]
             if got not in allowed:
